@@ -197,8 +197,9 @@ def run_chunk(arg):
     w = fresh()
     out = []
     for (seedname, ext, kind, pos, text) in items:
-        cmds = ["live", "compiler 0 arena=%d inc=1%s" % (ARENA, " strict=1" if kind.startswith("strict:") else "")] + ["defc 0 %s %s %s" % (n, t, yv.hx(v) if t == "s" else v) for (n, t, v) in ext]
-        cmds += ["add 0 - " + yv.hx(text.encode("latin-1", "replace")), "getrules 0 0", "scan target=r0 via=mem ml=0 data=" + yv.hx(b"abcd abcd xx"), "scan target=r0 via=mem ml=0 data=-", "rdestroy 0", "cdestroy 0", "live",
+        filemode = kind.startswith("filemode:")     # yr_compiler_add_file with a path as file name and the DEFAULT include callback (paths composed by the lexer)
+        cmds = ["live", "compiler 0 arena=%d inc=%d%s" % (ARENA, 0 if filemode else 1, " strict=1" if kind.startswith("strict:") else "")] + ["defc 0 %s %s %s" % (n, t, yv.hx(v) if t == "s" else v) for (n, t, v) in ext]
+        cmds += ["add 0 - " + yv.hx(text.encode("latin-1", "replace")) + (" mode=file" if filemode else ""), "getrules 0 0", "scan target=r0 via=mem ml=0 data=" + yv.hx(b"abcd abcd xx"), "scan target=r0 via=mem ml=0 data=-", "rdestroy 0", "cdestroy 0", "live",
                  "scan target=s6 via=mem ml=0 data=" + yv.hx(CANARY_BUF), "add 2 - " + yv.hx("rule post%d { condition: true }" % next_id(w)), "compiler 1 arena=%d" % ARENA, "add 1 - " + yv.hx(CANARY_SRC), "cdestroy 1"]
         try:
             rep = w.batch(cmds, timeout=120)
@@ -287,6 +288,9 @@ def main():
         items.append(("short-sequences", [], kind, n, text))
     for (kind, n, text) in error_catalogue():
         items.append(("error-catalogue", [("ext_i", "i", 1)], kind, n, text))
+    for L in (1, 100, 900, 980, 990, 1000, 1005, 1010, 1015, 1020, 1023, 1024, 1025, 1100, 2000, 4000, 8000):
+        for form in ('include "%s.yar"', 'include "sub/%s.yar"', 'include "../%s"', 'include "/%s"'):
+            items.append(("include-paths", [], "filemode:include-name-length", L, (form % ("I" * L)) + "\nrule r { condition: true }"))
     for (kind, n, text) in regex_sequences(quick):
         items.append(("regex-sequences", [], kind, n, text))
         items.append(("regex-sequences", [], "strict:" + kind, n, text))
